@@ -49,11 +49,12 @@ def _span_oracle(ctx, s, toks):
             return
         prev = b
         sl = s[a:b + 1]
+        cands = {sl}
+        if sl[:1] in "{`%":
+            cands.add(sl[1:])               # the opening delimiter of a quoted region belongs to the span, not to the text
         if t.kind is not None and t.kind.value == "operator":
-            sl = "".join(c for c in sl if not re.match(r"\s", c))
-        if sl != t.token and sl[:1] in "{`%" and sl[1:] == t.token:
-            sl = sl[1:]
-        if sl != t.token:
+            cands |= {"".join(c for c in x if not re.match(r"\s", c)) for x in list(cands)}   # skipped whitespace inside '+ -'
+        if t.token not in cands:
             ctx.fail(f"span ({a},{b}) of token {t.token!r} in {s!r} covers {s[a:b+1]!r}", rp, tags)
             return
 
